@@ -381,3 +381,113 @@ func zzH_C17p() {
 	c.Close()
 	vReach("end")
 }
+
+// zzH_C16d: duplicate and empty strings in the target list are ignored: with round robin over the
+// live targets of Update("a","","b","a") (and other lists with repeats) any n consecutive calls,
+// n = number of distinct targets, reach n distinct targets - a repeated address carries no extra
+// weight - and every call goes to a listed address.
+func zzH_C16d() {
+	rt := &zzRT{up: map[string]bool{"a": true, "b": true, "c": true}}
+	c := NewClient(nil)
+	c.Transport = rt
+	c.Scheduling = RoundRobinScheduling
+	vSetClockStep(1)
+	vSetTimerBudget(vParam("clt.ticks", 1))
+	lists := [][]string{{"a", "", "b", "a"}, {"c", "b", "c", "c"}, {"a", "a", "b", "b"}, {"b", "a", "b"}}
+	l := lists[vChoose("list", len(lists))]
+	if vChoose("via-second-update", 2) == 1 {
+		c.Update("c", "a")
+		vQuiesce()
+	}
+	c.Update(l...)
+	vQuiesce()
+	distinct := zzSet(l)
+	delete(distinct, "")
+	n := len(distinct)
+	c.lock.Lock()
+	live := len(c.list)
+	c.lock.Unlock()
+	if live < n {
+		return // the detector has not found every target on this schedule
+	}
+	var picked []string
+	for i := 0; i < 2*n; i++ {
+		k := len(rt.calls)
+		err := c.Call("S.M", nil, nil)
+		vAssert(err == nil && len(rt.calls) == k+1, "call-routed-at-once-when-targets-are-live")
+		if len(rt.calls) != k+1 {
+			return
+		}
+		vAssert(distinct[rt.calls[k]], "routed-to-current-target")
+		picked = append(picked, rt.calls[k])
+	}
+	for i := 0; i+n <= len(picked); i++ {
+		seen := map[string]bool{}
+		for _, p := range picked[i : i+n] {
+			seen[p] = true
+		}
+		vAssert(len(seen) == n, "duplicate-targets-carry-no-extra-weight")
+	}
+	c.Close()
+	vReach("end")
+}
+
+// zzH_C17w: the latency estimate is the moving average of observed CALL durations: a caller that
+// first has to wait for a live target (both targets are down when it starts, the clock advances a
+// lot while it is parked) and is then routed contributes the duration of its call only - for every
+// call form that feeds the estimate. The clock is concrete and advances by one unit per reading, so
+// the sample of the first call to a fresh target is a handful of units, never the hundreds spent
+// waiting.
+func zzH_C17w() {
+	rt := &zzRT{up: map[string]bool{"a": false, "b": false}}
+	c := NewClient(nil)
+	c.Transport = rt
+	c.Scheduling = LeastTimeScheduling
+	vSetClockStep(1)
+	vSetTimerBudget(0)
+	vSetOneShotTimers(false)
+	c.Update("a", "b")
+	vQuiesce()
+	form := vChoose("form", 4)
+	returned := false
+	vGo("caller", func() {
+		switch form {
+		case 0:
+			c.Call("S.M", nil, nil)
+		case 1:
+			c.CallWithContext(&zzCtx{done: make(chan struct{})}, "S.M", nil, nil)
+		case 2:
+			c.NewStream("S.Watch")
+		case 3:
+			c.Ping()
+		}
+		returned = true
+	})
+	vQuiesce() // the caller is parked: no target is live
+	for i := 0; i < 300; i++ {
+		time.Now() // time passes
+	}
+	rt.up["a"], rt.up["b"] = true, true
+	n := len(rt.calls) + len(rt.pings)
+	c.detect()
+	vQuiesce()
+	vAssert(returned, "waiter-released-when-a-target-becomes-live")
+	if !returned || len(rt.calls) == 0 {
+		return
+	}
+	_ = n
+	to := rt.calls[len(rt.calls)-1]
+	if form == 3 {
+		return // Ping is recorded by the stub as a probe, not as a call: the target is not identifiable here
+	}
+	c.lock.Lock()
+	two := len(c.list) == 2
+	lat := c.targets[to].latency
+	c.lock.Unlock()
+	if two && lat < clientLatency {
+		// a sample was taken (the call was routed by the policy, not as the single live target)
+		vAssert(lat < 100, "latency-sample-is-the-call-duration")
+	}
+	c.Close()
+	vReach("end")
+}
